@@ -59,7 +59,7 @@ SPEC = dict(
           "directories, files and symlinks, each step run through the REAL executeMountProfileUpdate with in-memory "
           "profiles and a simulated Change.Perform (missing targets get a writable mimic built by the real "
           "createWritableMimic, so current profiles contain real synthetic entries with x-snapd.needed-by); one case per "
-          "step. Mutations also put a tmpfs on the directory above an existing entry (where a mimic may sit). A third of the cases call neededChanges directly on an arbitrary current profile (duplicates, synthetic "
+          "step. Scripted and random histories of nested entries of different origins whose outer one changes, followed by another entry of the outer one's origin. Mutations also put a tmpfs on the directory above an existing entry (where a mimic may sit). A third of the cases call neededChanges directly on an arbitrary current profile (duplicates, synthetic "
           "helpers needed by present/absent entries, rootfs entries, up to 18 entries). Desired mount points are pairwise "
           "different after cleaning. order: the same histories (steps >= 1) reduced to (mount point, true mount age) and "
           "the positions unmounted. Non-trivial = guarded entry/profile; step with a Keep or Unmount and a Mount; step "
@@ -77,6 +77,7 @@ SPEC = dict(
         "mount order (C28_mount_order) is proved under per-pair hypotheses: different sort keys, existing targets closed under containment, mimic roots equal or string-ordered; that the last one follows from an ancestor-closed oracle (filepath.Dir algebra) is not proved; the monitor checks the conclusion without it",
         "hypotheses of the planning theorems (checked on every tied case, cases violating them are not monitored): pairwise different cleaned desired mount points; pairwise different (dir, type) in the current profile; existing mount targets closed under containment among desired entries of the same origin",
         "KNOWN FINDING desired-shadowed-by-helper: a desired entry on the (dir, type) of a reused, different helper entry is neither mounted nor recorded; in such steps everything else the property says is still checked (MountNS.relaxed_fail, folded into the correspondence verdict so the key cannot hide another failure)",
+        "KNOWN FINDING keep-beneath-unmounted-overname: an entry beneath an unmounted entry is kept when exactly one of the two is an overname entry; within one class C28_no_keep_beneath_unmounted holds (hypothesis: no two current entries on one sort key) and the monitor enforces it",
         "KNOWN FINDING unmount-order-after-keep: over histories the unmount order sentence fails on the real code (kept entries are recorded reversed); within one step C28_unmount_order holds for every profile",
         "KNOWN FINDING profile-name-leading-space-rune: profile round trip needs the first byte of the line not to be a white-space rune that escape() leaves alone",
         "codec guard: fields non-empty and not starting with #, at least one option, no commas inside options, joined options non-empty and not starting with #, numbers within int64; lines longer than bufio's 64 KiB token limit are outside the model",
